@@ -26,6 +26,7 @@ package main
 
 import (
 	"bytes"
+	"crypto/sha256"
 	"encoding/json"
 	"fmt"
 	"go/ast"
@@ -34,6 +35,7 @@ import (
 	"go/types"
 	"os"
 	"path/filepath"
+	"runtime"
 	"sort"
 	"strconv"
 	"strings"
@@ -99,6 +101,31 @@ func main() {
 		}
 		overlay[dst] = b
 	}
+	// fast path: nothing relevant changed since the last generation -> re-add the same files to the overlay
+	outDir := filepath.Join(build, "_schedgen") // (ovgen wipes <build>/_gen on every run; "_" dirs are ignored by go)
+	stamp := inputStamp(overlay)
+	if old, err := os.ReadFile(filepath.Join(outDir, "stamp")); err == nil && string(old) == stamp {
+		var add map[string]string
+		if b, err := os.ReadFile(filepath.Join(outDir, "add.json")); err == nil && json.Unmarshal(b, &add) == nil && len(add) > 0 {
+			ok := true
+			for _, g := range add {
+				if _, err := os.Stat(g); err != nil {
+					ok = false
+				}
+			}
+			if ok {
+				for dst, g := range add {
+					ov.Replace[dst] = g
+				}
+				ob, _ := json.MarshalIndent(map[string]interface{}{"Replace": ov.Replace}, "", " ")
+				if err := os.WriteFile(ovPath, ob, 0o644); err != nil {
+					die("%v", err)
+				}
+				fmt.Println("sched rewriter: inputs unchanged, generated files reused")
+				return
+			}
+		}
+	}
 	cfg := &packages.Config{
 		Mode: packages.NeedName | packages.NeedFiles | packages.NeedCompiledGoFiles | packages.NeedImports |
 			packages.NeedTypes | packages.NeedSyntax | packages.NeedTypesInfo | packages.NeedTypesSizes,
@@ -119,8 +146,10 @@ func main() {
 	}
 	rep := &report{Files: map[string]map[string]int{}, Totals: map[string]int{}, ImportsMap: map[string]string{
 		"sync": "verif/shim/vsync", "net": "verif/shim/vnet", "time": "verif/shim/vsched/stime"}}
-	gen := filepath.Join(build, "_gen")
+	gen := outDir
+	os.RemoveAll(gen)
 	os.MkdirAll(gen, 0o755)
+	added := map[string]string{}
 	for _, p := range pkgs {
 		if len(p.Errors) > 0 {
 			die("package %s does not type-check: %v", p.PkgPath, p.Errors[0])
@@ -170,6 +199,7 @@ func main() {
 				die("%v", err)
 			}
 			ov.Replace[path] = dst
+			added[path] = dst
 			rep.TreeFiles = append(rep.TreeFiles, rel)
 		}
 	}
@@ -193,7 +223,50 @@ func main() {
 	if err := os.WriteFile(ovPath, ob, 0o644); err != nil {
 		die("%v", err)
 	}
+	ab, _ := json.Marshal(added)
+	if err := os.WriteFile(filepath.Join(gen, "add.json"), ab, 0o644); err != nil {
+		die("%v", err)
+	}
+	if err := os.WriteFile(filepath.Join(gen, "stamp"), []byte(stamp), 0o644); err != nil {
+		die("%v", err)
+	}
 	fmt.Printf("sched rewriter: %d files rewritten, totals %v\n", len(rep.TreeFiles), rep.Totals)
+}
+
+// inputStamp hashes everything the generated files depend on: the (overlaid) non-test sources of the target
+// packages, the generator binary and the Go version.
+func inputStamp(overlay map[string][]byte) string {
+	h := sha256.New()
+	for _, p := range targetPkgs {
+		dir := filepath.Join(repo, p)
+		ents, err := os.ReadDir(dir)
+		if err != nil {
+			die("%v", err)
+		}
+		for _, e := range ents {
+			n := e.Name()
+			if e.IsDir() || !strings.HasSuffix(n, ".go") || strings.HasSuffix(n, "_test.go") {
+				continue
+			}
+			path := filepath.Join(dir, n)
+			b, ok := overlay[path]
+			if !ok {
+				b, err = os.ReadFile(path)
+				if err != nil {
+					die("%v", err)
+				}
+			}
+			fmt.Fprintf(h, "%s %d\n", path, len(b))
+			h.Write(b)
+		}
+	}
+	if exe, err := os.Executable(); err == nil {
+		if st, err := os.Stat(exe); err == nil {
+			fmt.Fprintf(h, "gen %d %d\n", st.Size(), st.ModTime().UnixNano())
+		}
+	}
+	fmt.Fprintf(h, "go %s\n", runtime.Version())
+	return fmt.Sprintf("%x", h.Sum(nil))
 }
 
 func isSyncType(t types.Type) bool {
